@@ -2,6 +2,7 @@ import QipVerif.Util.Proto
 import QipVerif.Model.Sim
 import QipVerif.Model.SimObj
 import QipVerif.Model.SimPulse
+import QipVerif.Model.SimEdit
 /-! Driver for the simulator / world model (C02, C16), exact backend.
 
 Request (one line):
@@ -322,16 +323,31 @@ def hist (fs : List String) : Option String := do
   let phS ← fStr? fs "phases"
   let phases ← if phS = "N" then some [] else intList? phS
   let callsS ← fStr? fs "calls"
-  let calls ← if callsS = "N" then some [] else (callsS.splitOn "/").mapM parseCall
+  let calls : List (Sum Nat DCall) ← if callsS = "N" then some [] else (callsS.splitOn "/").mapM (fun x =>
+    match x.splitOn "." with
+    | ["edit", v] => (String.toNat? v).map Sum.inl
+    | _ => (parseCall x).map Sum.inr)
   let c : Circuit := { nq := n, ncb := ncb, ops := ops }
-  if !c.constructible cfg then pure "err value" else
+  -- in-place edits of the circuit object: `alts=<ops>|<ops>…` are the later versions, the call `edit.<v>` makes the
+  -- circuit read version `v` (0 = `ops`) from then on (Model/SimEdit.lean)
+  let alts : List (List Op) ← match fStr? fs "alts" with
+    | none => some []
+    | some a => (a.splitOn "|").mapM fun o => if o = "N" then some [] else (o.splitOn ";").mapM parseOp
+  let versions : List Circuit := c :: alts.map fun o => { nq := n, ncb := ncb, ops := o }
+  if !versions.all (·.constructible cfg) then pure "err value" else
   let w0 : W := { heap := ⟨lists⟩, sim := none, rng := rng, log := [],
                   comp := defaultCompiler, proc := { pulses := none, phase := 0 } }
   let isGarbage (w : W) : Bool := match w.sim with | some s => s.f.form == .garbage | none => false
-  let (w, outs) := calls.foldl (fun (acc : W × List String) call =>
-      let (w', o) := execCall cfg mode c inits phases acc.1 call
-      let o := o ++ "!H" ++ ";".intercalate ((w'.heap.cells.take lists.length).map showList)
-      (w', acc.2 ++ [if isGarbage w' then o ++ "!GARBAGE" else o])) (w0, [])
+  let (w, _, outs) := calls.foldl (fun (acc : W × Circuit × List String) call =>
+      let cur := acc.2.1
+      match call with
+      | .inl v =>
+        let c' := versions.getD v cur
+        (acc.1, c', acc.2.2 ++ ["X!H" ++ ";".intercalate ((acc.1.heap.cells.take lists.length).map showList)])
+      | .inr call =>
+        let (w', o) := execCall cfg mode cur inits phases acc.1 call
+        let o := o ++ "!H" ++ ";".intercalate ((w'.heap.cells.take lists.length).map showList)
+        (w', cur, acc.2.2 ++ [if isGarbage w' then o ++ "!GARBAGE" else o])) (w0, c, [])
   pure (" ; ".intercalate (outs ++ [showWorld w]))
 
 /-- `ccv cs=<controls|e> v=<value> bits=<cbits|N|e>` → `ok 0|1` / `err <kind>`;
